@@ -1,5 +1,5 @@
 (* SymlinkProofs.v -- C15: the protected_symlinks decision, for all uids and modes. *)
-From PV Require Import Symlinks Discipline ProgTac.
+From PV Require Import Symlinks OpathM Discipline ProgTac.
 Open Scope N_scope.
 
 Arguments N.eqb : simpl never.
@@ -12,6 +12,16 @@ Proof. unfold emu_may_follow, k_may_follow. cbn [negb]. rewrite andb_false_r. re
 (* F-G: needs the source to restrict the rule to trailing positions (T0: EMU_PS_ONLY_TRAILING) *)
 Lemma only_trailing : EMU_PS_ONLY_TRAILING = true.
 Proof. reflexivity. Qed.
+
+(* which positions are trailing: the kernel treats a link as trailing when nothing but
+   trailing slashes follows it (lookup_last with LOOKUP_DIRECTORY); T0: the source does too *)
+Definition k_trailing (rest : list bytes) : bool := forallb (@is_nil N) rest.
+
+Lemma slashes_trailing : EMU_PS_SLASHES_TRAILING = true.
+Proof. reflexivity. Qed.
+
+Lemma trailing_notion_exact rest : ps_trailing rest = k_trailing rest.
+Proof. unfold ps_trailing, k_trailing. rewrite slashes_trailing. reflexivity. Qed.
 
 Lemma positions_exact sysctl fsuid dm du lu trailing :
   emu_may_follow sysctl fsuid dm du lu trailing = k_may_follow sysctl fsuid dm du lu trailing.
